@@ -47,7 +47,7 @@ def handleLines (j : Json) : Option Json := do
     let e ← getNat? a[1]!
     some (Json.bool (hasIgnoreComment chars ⟨s, e⟩)))
   some (Json.mkObj [("ignored", Json.arr out.toArray),
-    ("starts", Json.arr ((lineStarts pyBreak chars).map (fun (n : Nat) => Json.num n)).toArray),
+    ("starts", Json.arr ((lineStarts astBreak chars).map (fun (n : Nat) => Json.num n)).toArray),
     ("skipfile", Json.bool (skipFileSearch chars))])
 
 def handleFixloop (j : Json) : Option Json := do
@@ -353,7 +353,8 @@ partial def parseExpr (j : Json) : Option C15.Expr := do
   let cmpop (s : String) : Option C15.CmpOp := match s with
     | "eq" => some .eq | "ne" => some .ne | "lt" => some .lt | "le" => some .le | "gt" => some .gt | "ge" => some .ge | _ => none
   let builtin (s : String) : Option C15.Builtin := match s with
-    | "len" => some .len | "abs" => some .abs | "bool" => some .bool | "int" => some .int | "min" => some .min | "max" => some .max | _ => none
+    | "len" => some .len | "abs" => some .abs | "bool" => some .bool | "int" => some .int | "min" => some .min | "max" => some .max
+    | "sum" => some .sum | "any" => some .any | "all" => some .all | "tuple" => some .tuple | "list" => some .list | _ => none
   match (← getStr? a[0]!) with
   | "int" => some (.int (← getInt? a[1]!)) | "bool" => some (.bool (← getBool? a[1]!)) | "none" => some .none
   | "str" => some (.str (← getStr? a[1]!)) | "name" => some (.name (← getNat? a[1]!))
@@ -481,9 +482,9 @@ def handleSafeCalls (j : Json) : Option Json := do
   let ds ← (field? j "defs") >>= getArr?
   let defs ← ds.toList.mapM (fun d => do
     let a ← getArr? d
-    if a.size != 3 then none
+    if a.size != 4 then none
     let calls ← (← getArr? a[2]!).toList.mapM getStr?
-    some (C16.SafeCalls.Def.mk (← getStr? a[0]!) (a[1]! == Json.bool true) calls))
+    some (C16.SafeCalls.Def.mk (← getStr? a[0]!) (a[1]! == Json.bool true) calls (a[3]! == Json.bool true)))
   let names := C16.SafeCalls.safeNames base defs stores other
   let k := defs.length + 1
   some (Json.mkObj [("names", Json.arr (names.map Json.str).toArray),
@@ -554,10 +555,13 @@ def handlePreserve (j : Json) : Option Json := do
   let attrs ← attrsJ.toList.mapM (fun p => do
     let a ← getArr? p
     some ((if a[0]!.isNull then none else getStr? a[0]!), (← getStr? a[1]!)))
+  let fromNames := ((field? j "from_names") >>= strList?).getD []
+  let star := (field? j "star") == some (Json.bool true)
+  let allNames := ((field? j "all_names") >>= strList?).getD []
   some (Json.mkObj [
     ("safe", Json.arr ((Preserve.safeSet ⟨defs, cms, assigns, cas⟩ pres).map Json.str).toArray),
     ("file_preserve", Json.arr ((Preserve.filePreserve used ns).map Json.str).toArray),
-    ("used_names", Json.arr ((Preserve.usedNames ⟨imported, loads, attrs⟩).map Json.str).toArray)])
+    ("used_names", Json.arr ((Preserve.usedNames ⟨imported, loads, attrs, fromNames, star, allNames⟩).map Json.str).toArray)])
 
 def handleLayout (j : Json) : Option Json := do
   let src ← (field? j "src") >>= getStr?
